@@ -279,3 +279,30 @@ def steps(frames):
 
 def describe(f):
     return "%s:%s:%s" % (f["fate"], f["dir"], f["kind"])
+
+
+def parse_activation(brty, data):
+    """ATR_REQ / ATR_RES / PSL_REQ fields (independent reading) or None"""
+    data = bytes(data)
+    if brty == "106A":
+        if data[:1] != b"\xF0":
+            return None
+        data = data[1:]
+    if len(data) < 3 or data[0] != len(data):
+        return None
+    d = data[1:]
+    if d[:2] == b"\xD4\x00" and len(d) >= 16:
+        pp = d[15]
+        return {"pdu": "ATR_REQ", "did": d[12], "lr": (pp >> 4) & 3,
+                "gb": d[16:] if pp & 2 else b"", "nad": pp & 1}
+    if d[:2] == b"\xD5\x01" and len(d) >= 17:
+        pp = d[16]
+        return {"pdu": "ATR_RES", "did": d[12], "wt": d[15] & 15,
+                "lr": (pp >> 4) & 3, "gb": d[17:] if pp & 2 else b"",
+                "nad": pp & 1}
+    if d[:2] == b"\xD4\x04" and len(d) == 5:
+        return {"pdu": "PSL_REQ", "did": d[2], "dsi": (d[3] >> 3) & 7,
+                "dri": d[3] & 7, "lr": d[4] & 3}
+    if d[:2] == b"\xD5\x05":
+        return {"pdu": "PSL_RES"}
+    return None
